@@ -9,7 +9,13 @@ import (
 	"github.com/DataDog/datadog-traceroute/result"
 )
 
-func VerifNewTraceroute(f publicip.Fetcher) *Traceroute { return &Traceroute{publicIPFetcher: f} }
+// VerifNewTraceroute: the repository's own constructor (whatever else it initialises stays initialised), with the
+// public-IP fetcher replaced.
+func VerifNewTraceroute(f publicip.Fetcher) *Traceroute {
+	t := NewTraceroute()
+	t.publicIPFetcher = f
+	return t
+}
 
 type VerifRunOnceFn = func(ctx context.Context, params TracerouteParams, destinationPort int) (*result.TracerouteRun, error)
 
